@@ -34,14 +34,25 @@ def do_case(ctx, inp):
     # "non-default branches": in a defaulted choice that lists its default among its alternatives, every other alternative
     # sits below the generated non-default branch (the node tagged -2) — read off the structure, independently of the ids
     for n_ in subs(t):
+        if n_["k"] == "node" and n_["cls"] == "ccXor" and n_.get("default"):
+            # the "at least one" half of a defaulted cc.Xor is a cc.Any over the same alternatives with the same defaults,
+            # in the caller's order of preference
+            inner = [k for k in n_["kids"] if k["k"] == "node" and k["cls"] == "ccAny"]
+            if inner and [d[0] for d in inner[0].get("default") or []] != [d[0] for d in n_["default"]]:
+                ctx.fail("defaults-of-a-choice-reordered-on-the-way-to-its-at-least-one-half",
+                         {"choice": n_["id"], "default": [d[0] for d in n_["default"]], "handed_on": [d[0] for d in inner[0].get("default") or []]}); return
         if n_["k"] == "node" and n_["cls"] == "ccAny" and n_.get("default"):
-            dids = {d[0] for d in n_["default"]}
+            # THE default is the first entry of the default list; if it is one of the alternatives, it alone stays directly
+            # below the choice and every other alternative sits below the generated non-default branch (the node tagged -2)
+            first = n_["default"][0][0]
+            helper = [k for k in n_["kids"] if k["k"] == "node" and k.get("prio") == -2]
             direct = [k for k in n_["kids"] if not (k["k"] == "node" and k.get("prio") == -2)]
-            if any(k["k"] == "leaf" and k["id"] in dids for k in direct):
-                stray = [k["id"] for k in direct if not (k["k"] == "leaf" and k["id"] in dids)]
-                if stray:
+            alts = {k["id"] for k in direct} | {k["id"] for h in helper for k in h["kids"]}
+            if first in alts and len(alts) >= 2:
+                stray = [k["id"] for k in direct if not (k["k"] == "leaf" and k["id"] == first)]
+                if stray or not any(k["k"] == "leaf" and k["id"] == first for k in direct):
                     ctx.fail("non-default-alternative-outside-the-non-default-branch",
-                             {"choice": n_["id"], "default": sorted(dids), "alternatives_ranked_like_the_default": stray}); return
+                             {"choice": n_["id"], "default": first, "directly_below_the_choice": [k["id"] for k in direct]}); return
     dp = sorted([k, int(v)] for k, v in o.default_prios.items())
     ctx.op({"op": "default_prios", "t": t}, {"prios": dp})
     rec = Recorder()
@@ -104,7 +115,7 @@ def run(ctx):
     rng = ctx.rng
     n = (300 if ctx.quick else 1500) * (3 if ctx.search else 1)
     for _ in range(n):
-        a, o, t = valid_configurator(rng, ctx.quick)
+        a, o, t = valid_configurator(rng, ctx.quick, multi_default_p=0.25)
         names = sorted(leaves_of(t)) + [c for c in compound_ids(t) if not c.startswith("VAR")]
         prios = []
         for _ in range(rng.randint(1, 2)):
